@@ -1,5 +1,557 @@
-//! C14 - monitor not written yet.
+//! C14 - PLIST parses to one entry per non-blank line, arguments byte for byte.
+//!
+//! Refuting events: the entry sequence of `Plist::from_bytes(doc)` differs
+//! from the model's; a document expected to fail parses (or vice versa, or
+//! fails with another error kind); an entry differs from
+//! `PlistEntry::from_bytes(that line)`.
+//!
+//! The entry vector is private.  It is observed without a hook through
+//!  (1) `Debug` of the parsed `Plist`: the text between the first '[' and the
+//!      last ']' must equal `Debug` of the expected `Vec<&PlistEntry>`;
+//!  (2) the public list views, as a homomorphism law that does not depend on
+//!      what each view selects (that is C15's business): view(document) must
+//!      be the concatenation of view(line_i parsed alone) - a dropped, merged,
+//!      invented or reordered line breaks it;
+//!  (3) metamorphic `Plist ==`: inserting blank lines, toggling the final
+//!      newline and re-padding blank lines preserve equality; deleting,
+//!      duplicating or swapping two different item lines breaks it.
+//! Each line is also parsed alone with `PlistEntry::from_bytes` and compared
+//! with the entry (or error kind) the generator knows it must give.
 
-use crate::fw::Cx;
+use crate::fw::{show, CaseResult, Cx, Ev};
+use crate::gen::plist::{self as gp, ErrKind, Layout, Line, Phys, Want};
+use crate::oracle::plist as op;
+use crate::rng::{hash_strs, Rng};
+use pkgsrc::plist::{Plist, PlistEntry, PlistError};
+use std::os::unix::ffi::OsStrExt;
 
-pub fn run(_cx: &mut Cx) {}
+/// Bytes rendered for messages: ASCII kept, the rest as \xNN, in quotes.
+pub struct Q<'a>(pub &'a [u8]);
+impl std::fmt::Debug for Q<'_> {
+    fn fmt(&self, f: &mut std::fmt::Formatter<'_>) -> std::fmt::Result {
+        write!(f, "\"{}\"", show(self.0))
+    }
+}
+
+fn kind_name(e: &PlistError) -> &'static str {
+    #[allow(unreachable_patterns)]
+    match e {
+        PlistError::UnsupportedCommand(_) => "UnsupportedCommand",
+        PlistError::IncorrectArguments(_) => "IncorrectArguments",
+        PlistError::Utf8(_) => "Utf8",
+        _ => "other",
+    }
+}
+
+fn want_name(k: ErrKind) -> &'static str {
+    match k {
+        ErrKind::Unsupported => "UnsupportedCommand",
+        ErrKind::IncorrectArgs => "IncorrectArguments",
+        ErrKind::Utf8 => "Utf8",
+        ErrKind::Any => "any error",
+    }
+}
+
+fn kind_ok(want: ErrKind, got: &PlistError) -> bool {
+    want == ErrKind::Any || want_name(want) == kind_name(got)
+}
+
+/// Observation (1): the entries as `Debug` prints them, independent of the
+/// struct's and the field's names.
+pub fn debug_entries(p: &Plist) -> Result<String, String> {
+    let s = format!("{p:?}");
+    match (s.find('['), s.rfind(']')) {
+        (Some(a), Some(b)) if a < b => Ok(s[a..=b].to_string()),
+        _ => Err(format!("Debug output of Plist shows no entry list: {s}")),
+    }
+}
+
+pub fn debug_model(es: &[&PlistEntry]) -> String {
+    format!("{es:?}")
+}
+
+fn len_class(n: usize) -> &'static str {
+    match n {
+        1 => "1",
+        2 => "2",
+        3 => "3",
+        _ => "4+",
+    }
+}
+
+fn pos_class(i: usize, n: usize) -> &'static str {
+    if n == 1 {
+        "only"
+    } else if i == 0 {
+        "first"
+    } else if i + 1 == n {
+        "last"
+    } else {
+        "middle"
+    }
+}
+
+/// A line parsed alone: `PlistEntry::from_bytes` must give the entry, or the
+/// error kind, the generator attached to the line.
+fn check_entry(ev: &mut Ev, l: &Line) -> Result<(), String> {
+    ev.eval();
+    let got = PlistEntry::from_bytes(&l.bytes);
+    match (&got, &l.want) {
+        (Ok(e), Want::Entry(w)) => {
+            if op::key(e) != op::key(w) {
+                return Err(format!(
+                    "PlistEntry::from_bytes({:?}) = {e:?}, expected {w:?}",
+                    Q(&l.bytes)
+                ));
+            }
+            if e != w {
+                return Err(format!(
+                    "PlistEntry::from_bytes({:?}) = {e:?} has the expected content but `==` with {w:?} is false",
+                    Q(&l.bytes)
+                ));
+            }
+        }
+        (Ok(e), Want::Err(k)) => {
+            return Err(format!(
+                "PlistEntry::from_bytes({:?}) = {e:?}, expected an error ({})",
+                Q(&l.bytes),
+                want_name(*k)
+            ));
+        }
+        (Err(g), Want::Entry(w)) => {
+            return Err(format!(
+                "PlistEntry::from_bytes({:?}) failed with {} ({g}), expected {w:?}",
+                Q(&l.bytes),
+                kind_name(g)
+            ));
+        }
+        (Err(g), Want::Err(k)) => {
+            if !kind_ok(*k, g) {
+                return Err(format!(
+                    "PlistEntry::from_bytes({:?}) failed with {}, expected {}",
+                    Q(&l.bytes),
+                    kind_name(g),
+                    want_name(*k)
+                ));
+            }
+        }
+    }
+    Ok(())
+}
+
+fn is_nontrivial_line(b: &[u8]) -> bool {
+    b.len() == 1 || b.iter().any(|&c| c == b' ' || c == b'\t' || c == b'@' || c >= 0x80)
+}
+
+/// Workload A: one table cell = one line, alone and as a one-line document
+/// with and without the final newline.
+fn check_single(ev: &mut Ev, l: &Line) -> CaseResult {
+    ev.count(&format!("cell/{}/{}", l.cmd, l.arg));
+    check_entry(ev, l)?;
+    for nl in [false, true] {
+        let mut doc = l.bytes.clone();
+        if nl {
+            doc.push(b'\n');
+        }
+        ev.eval();
+        ev.count(&format!("len/{}/only/{}", len_class(l.bytes.len()), if nl { "nl" } else { "nonl" }));
+        let got = Plist::from_bytes(&doc);
+        match (&got, &l.want) {
+            (Ok(p), Want::Entry(w)) => {
+                let d = debug_entries(p)?;
+                let m = debug_model(&[w]);
+                if d != m {
+                    return Err(format!(
+                        "Plist::from_bytes({:?}) holds {d}, expected {m}",
+                        Q(&doc)
+                    )
+                    .into());
+                }
+            }
+            (Ok(p), Want::Err(k)) => {
+                return Err(format!(
+                    "Plist::from_bytes({:?}) = {p:?}, expected an error ({})",
+                    Q(&doc),
+                    want_name(*k)
+                )
+                .into());
+            }
+            (Err(g), Want::Entry(w)) => {
+                return Err(format!(
+                    "Plist::from_bytes({:?}) failed with {} ({g}), expected [{w:?}]",
+                    Q(&doc),
+                    kind_name(g)
+                )
+                .into());
+            }
+            (Err(g), Want::Err(k)) => {
+                if !kind_ok(*k, g) {
+                    return Err(format!(
+                        "Plist::from_bytes({:?}) failed with {}, expected {}",
+                        Q(&doc),
+                        kind_name(g),
+                        want_name(*k)
+                    )
+                    .into());
+                }
+            }
+        }
+    }
+    if is_nontrivial_line(&l.bytes) {
+        ev.nontrivial(hash_strs(&[&l.bytes]));
+    }
+    Ok(())
+}
+
+/// A generated document with everything the body needs, built before the
+/// library is called.
+struct DocCase {
+    lines: Vec<Line>,
+    lay: Layout,
+    doc: Vec<u8>,
+    same: Vec<(&'static str, Vec<u8>)>,
+    differ: Vec<(&'static str, Vec<u8>)>,
+}
+
+fn build_case(r: &mut Rng, lines: Vec<Line>, lay: Layout) -> DocCase {
+    let items: Vec<&[u8]> = lines.iter().map(|l| &l.bytes[..]).collect();
+    let doc = gp::render(&items, &lay);
+    let mut same = vec![];
+    let mut differ = vec![];
+    if lines.iter().all(|l| l.entry().is_some()) {
+        let keys: Vec<op::Key> = lines.iter().filter_map(|l| l.entry()).map(op::key).collect();
+        same.push(("blank lines inserted", gp::render(&items, &gp::insert_blanks(r, &lay))));
+        same.push(("final newline toggled", gp::render(&items, &gp::toggle_final_newline(&lay))));
+        same.push(("blank lines re-padded", gp::render(&items, &gp::repad_blanks(r, &lay))));
+        let repadded = gp::repad_blanks(r, &lay);
+        let both = gp::toggle_final_newline(&gp::insert_blanks(r, &repadded));
+        same.push(("blank lines inserted and re-padded, final newline toggled", gp::render(&items, &both)));
+        if let Some(l) = gp::delete_item(r, &lay) {
+            differ.push(("one line deleted", gp::render(&items, &l)));
+        }
+        if let Some(l) = gp::duplicate_item(r, &lay) {
+            differ.push(("one line duplicated", gp::render(&items, &l)));
+        }
+        if let Some(l) = gp::swap_items(r, &lay, &|i, j| keys[i] != keys[j]) {
+            differ.push(("two different lines swapped", gp::render(&items, &l)));
+        }
+    }
+    drop(items);
+    DocCase { lines, lay, doc, same, differ }
+}
+
+fn describe(tag: &str, c: &DocCase) -> String {
+    let n = c.lines.len();
+    let bad = c.lines.iter().filter(|l| l.err().is_some()).count();
+    format!("{tag}: {n} line(s), {bad} faulty, document {:?}", Q(&c.doc))
+}
+
+/// The five list views plus files / install / uninstall of a `Plist`,
+/// flattened to comparable keys.
+struct Obs {
+    lists: [Vec<Vec<u8>>; 6],
+    install: Vec<op::Key>,
+    uninstall: Vec<op::Key>,
+}
+
+const LIST_NAMES: [&str; 6] = ["depends", "build_depends", "conflicts", "pkgdirs", "pkgrmdirs", "files"];
+
+fn observe(p: &Plist) -> Obs {
+    let s = |v: Vec<&str>| v.into_iter().map(|x| x.as_bytes().to_vec()).collect::<Vec<_>>();
+    let o = |v: Vec<&std::ffi::OsStr>| v.into_iter().map(|x| x.as_bytes().to_vec()).collect::<Vec<_>>();
+    Obs {
+        lists: [
+            s(p.depends()),
+            s(p.build_depends()),
+            s(p.conflicts()),
+            o(p.pkgdirs()),
+            o(p.pkgrmdirs()),
+            o(p.files()),
+        ],
+        install: op::keys(p.install_cmds()),
+        uninstall: op::keys(p.uninstall_cmds()),
+    }
+}
+
+fn check_doc(ev: &mut Ev, c: &DocCase) -> CaseResult {
+    let n = c.lines.len();
+    let nl = if gp::last_item_unterminated(&c.lay) { "nonl" } else { "nl" };
+    for (i, l) in c.lines.iter().enumerate() {
+        ev.count(&format!("len/{}/{}/{}", len_class(l.bytes.len()), pos_class(i, n), nl));
+        ev.count(&format!("doc-cell/{}/{}", l.cmd, l.arg));
+    }
+    let blanks = c.lay.phys.iter().filter(|p| matches!(p, Phys::Blank(_))).count();
+    let padded = c.lay.phys.iter().filter(|p| matches!(p, Phys::Blank(b) if !b.is_empty())).count();
+    ev.count(&format!("doc/lines/{}", if n == 0 { "0" } else if n <= 3 { "1-3" } else if n <= 8 { "4-8" } else { "9-12" }));
+    ev.count(if blanks == 0 { "doc/blank-lines/none" } else if padded > 0 { "doc/blank-lines/padded" } else { "doc/blank-lines/empty-only" });
+    ev.count(&format!("doc/last-line/{nl}"));
+
+    let has_one = c.lines.iter().any(|l| l.bytes.len() == 1);
+    let nontrivial = n >= 2 && (blanks > 0 || nl == "nonl" || has_one);
+
+    // every line alone
+    for l in &c.lines {
+        check_entry(ev, l)?;
+    }
+
+    let faulty: Vec<&Line> = c.lines.iter().filter(|l| l.err().is_some()).collect();
+    ev.eval();
+    let got = Plist::from_bytes(&c.doc);
+    if !faulty.is_empty() {
+        ev.count(if faulty.len() == 1 { "doc/faulty/one" } else { "doc/faulty/several" });
+        match got {
+            Ok(p) => {
+                return Err(format!(
+                    "document with faulty line {:?} parsed: {p:?}",
+                    Q(&faulty[0].bytes)
+                )
+                .into())
+            }
+            Err(g) => {
+                // With several faulty lines the statement does not say which
+                // error is reported: only failure is required.
+                if faulty.len() == 1 {
+                    let k = faulty[0].err().unwrap_or(ErrKind::Any);
+                    if !kind_ok(k, &g) {
+                        return Err(format!(
+                            "document failed with {}, expected {} for line {:?}",
+                            kind_name(&g),
+                            want_name(k),
+                            Q(&faulty[0].bytes)
+                        )
+                        .into());
+                    }
+                }
+            }
+        }
+        if nontrivial {
+            ev.nontrivial(hash_strs(&[&c.doc]));
+        }
+        return Ok(());
+    }
+    ev.count("doc/faulty/none");
+    let model: Vec<&PlistEntry> = c.lines.iter().filter_map(|l| l.entry()).collect();
+    let p = match got {
+        Ok(p) => p,
+        Err(g) => {
+            return Err(format!(
+                "document of valid lines failed with {} ({g}); expected {}",
+                kind_name(&g),
+                debug_model(&model)
+            )
+            .into())
+        }
+    };
+
+    // (1) Debug
+    let d = debug_entries(&p)?;
+    let m = debug_model(&model);
+    if d != m {
+        return Err(format!("parsed entries {d}, expected {m}").into());
+    }
+
+    // (2) list views are homomorphic in the lines
+    let whole = observe(&p);
+    let has_ignore = model.iter().any(|e| matches!(e, PlistEntry::Ignore));
+    let mut lists: [Vec<Vec<u8>>; 6] = Default::default();
+    let mut install = vec![];
+    let mut uninstall = vec![];
+    for l in &c.lines {
+        let part = match Plist::from_bytes(&l.bytes) {
+            Ok(q) => observe(&q),
+            Err(g) => {
+                return Err(format!(
+                    "line {:?} parsed inside the document but fails alone with {}",
+                    Q(&l.bytes),
+                    kind_name(&g)
+                )
+                .into())
+            }
+        };
+        for (acc, x) in lists.iter_mut().zip(part.lists) {
+            acc.extend(x);
+        }
+        install.extend(part.install);
+        uninstall.extend(part.uninstall);
+    }
+    for k in 0..6 {
+        if k == 5 && has_ignore {
+            continue; // files() is not a per-line projection when @ignore is present
+        }
+        ev.eval();
+        if whole.lists[k] != lists[k] {
+            return Err(format!(
+                "{}() of the document has {} element(s) {:?}, the lines parsed one by one give {} {:?}",
+                LIST_NAMES[k],
+                whole.lists[k].len(),
+                whole.lists[k].iter().map(|b| Q(b)).collect::<Vec<_>>(),
+                lists[k].len(),
+                lists[k].iter().map(|b| Q(b)).collect::<Vec<_>>()
+            )
+            .into());
+        }
+    }
+    if !has_ignore {
+        ev.evals(2);
+        if whole.install != install || whole.uninstall != uninstall {
+            return Err(format!(
+                "install_cmds()/uninstall_cmds() of the document ({} / {} entries) differ from the concatenation over its lines ({} / {})",
+                whole.install.len(),
+                whole.uninstall.len(),
+                install.len(),
+                uninstall.len()
+            )
+            .into());
+        }
+    }
+
+    // (3) metamorphic equality
+    for (what, v) in &c.same {
+        ev.eval();
+        ev.count("meta/preserved");
+        match Plist::from_bytes(v) {
+            Ok(q) => {
+                if !(q == p) || q != p {
+                    return Err(format!(
+                        "{what}: {:?} parses to {q:?}, which is not == the original {p:?}",
+                        Q(v)
+                    )
+                    .into());
+                }
+            }
+            Err(g) => {
+                return Err(format!("{what}: {:?} fails with {} ({g})", Q(v), kind_name(&g)).into())
+            }
+        }
+    }
+    for (what, v) in &c.differ {
+        ev.eval();
+        ev.count("meta/broken");
+        match Plist::from_bytes(v) {
+            Ok(q) => {
+                if q == p {
+                    return Err(format!(
+                        "{what}: {:?} still parses to a Plist == the original {p:?}",
+                        Q(v)
+                    )
+                    .into());
+                }
+            }
+            Err(g) => {
+                return Err(format!("{what}: {:?} fails with {} ({g})", Q(v), kind_name(&g)).into())
+            }
+        }
+    }
+
+    if nontrivial {
+        ev.nontrivial(hash_strs(&[&c.doc]));
+    }
+    Ok(())
+}
+
+pub fn run(cx: &mut Cx) {
+    cx.default_budget();
+    for pos in ["only", "first", "middle", "last"] {
+        for nl in ["nl", "nonl"] {
+            cx.ev.require(&format!("len/1/{pos}/{nl}"));
+        }
+    }
+    for c in gp::CMDS {
+        for a in gp::classes_of(c) {
+            cx.ev.require(&format!("cell/{}/{}", c.word, a));
+        }
+    }
+    for a in gp::FILE_CLASSES {
+        cx.ev.require(&format!("cell/file/{a}"));
+    }
+    for a in gp::UNKNOWN_NAMES {
+        cx.ev.require(&format!("cell/unknown/{a}"));
+    }
+    for k in ["meta/preserved", "meta/broken", "doc/faulty/none", "doc/faulty/one", "doc/faulty/several"] {
+        cx.ev.require(k);
+    }
+    let (shard, nshards) = (cx.shard as usize, cx.nshards as usize);
+
+    // A. the command table, cell by cell.
+    let cells = gp::table_cells() as u64;
+    let n = cx.per_shard(cells, 30_000, 400_000, 3_200_000);
+    let mut r = cx.stream("table");
+    for k in 0..n as usize {
+        let l = gp::table_line(&mut r, k * nshards + shard);
+        cx.check(
+            || format!("line {:?} ({} / {})", Q(&l.bytes), l.cmd, l.arg),
+            |ev| check_single(ev, &l),
+        );
+    }
+
+    // B. random documents of 0-12 lines.
+    let n = cx.per_shard(64, 20_000, 320_000, 2_400_000);
+    let mut r = cx.stream("documents");
+    for _ in 0..n {
+        let nlines = if r.chance(1, 12) { 0 } else { r.range(1, 12) };
+        // 0: all valid (most), 1: exactly one faulty line, 2: several
+        let mode = match r.below(10) {
+            0..=6 => 0,
+            7 | 8 => 1,
+            _ => 2,
+        };
+        let mut lines: Vec<Line> = (0..nlines).map(|_| gp::valid_line(&mut r)).collect();
+        if nlines > 0 && mode >= 1 {
+            let k = if mode == 1 { 1 } else { r.range(2, 3).min(nlines) };
+            let mut at: Vec<usize> = (0..nlines).collect();
+            r.shuffle(&mut at);
+            for &i in at.iter().take(k) {
+                lines[i] = gp::faulty_line(&mut r);
+            }
+        }
+        let density = r.below(6);
+        let lay = gp::layout(&mut r, lines.len(), density);
+        let c = build_case(&mut r, lines, lay);
+        cx.check(|| describe("random document", &c), |ev| check_doc(ev, &c));
+    }
+
+    // C. short lines (1-3 characters, and the lone '@') in every position,
+    //    with and without the final newline.
+    let n = cx.per_shard(48, 5_000, 64_000, 480_000);
+    let mut r = cx.stream("short-lines");
+    for k in 0..n as usize {
+        let g = k * nshards + shard;
+        let pos = ["only", "first", "middle", "last"][g % 4];
+        let unterminated = (g / 4) % 2 == 1;
+        let what = (g / 8) % 4;
+        let short: Line = match what {
+            0 | 1 => gp::file_line(&mut r, 0), // one character
+            2 => {
+                let fi = r.range(1, 2); // two or three characters
+                gp::file_line(&mut r, fi)
+            }
+            _ => gp::unknown_line(&mut r, 1, 0), // "@": an error, never a file and never dropped
+        };
+        let others = match pos {
+            "only" => 0,
+            "middle" => r.range(2, 5),
+            _ => r.range(1, 4),
+        };
+        let mut lines: Vec<Line> = (0..others)
+            .map(|_| if r.chance(1, 4) { gp::file_line(&mut r, 0) } else { gp::valid_line(&mut r) })
+            .collect();
+        let at = match pos {
+            "only" | "first" => 0,
+            "last" => lines.len(),
+            _ => r.range(1, lines.len() - 1),
+        };
+        lines.insert(at, short);
+        let density = r.below(4);
+        let mut lay = gp::layout(&mut r, lines.len(), density);
+        if unterminated {
+            while matches!(lay.phys.last(), Some(Phys::Blank(_))) {
+                lay.phys.pop();
+            }
+            lay.final_nl = false;
+        } else if matches!(lay.phys.last(), Some(Phys::Item(_))) {
+            lay.final_nl = true;
+        }
+        let c = build_case(&mut r, lines, lay);
+        cx.check(|| describe(&format!("short line in position '{pos}'"), &c), |ev| check_doc(ev, &c));
+    }
+}
